@@ -136,6 +136,52 @@ func effects(fd *ast.FuncDecl) []string {
 	return out
 }
 
+// lockEvents lists, in source order, where fd takes the chain lock and where it reads the state
+// the lock protects (store reads, lastGroup, count) or calls save/remove.
+func lockEvents(fd *ast.FuncDecl) []string {
+	var out []string
+	add := func(e string) {
+		if len(out) == 0 || out[len(out)-1] != e {
+			out = append(out, e)
+		}
+	}
+	ast.Inspect(fd.Body, func(n ast.Node) bool {
+		switch x := n.(type) {
+		case *ast.DeferStmt:
+			s := src(x.Call.Fun)
+			if strings.HasSuffix(s, ".lock.Unlock") || strings.HasSuffix(s, ".lock.RUnlock") {
+				add("defer " + s[strings.LastIndex(s, ".")+1:])
+				return false
+			}
+		case *ast.CallExpr:
+			s := src(x.Fun)
+			switch {
+			case strings.HasSuffix(s, ".lock.Lock"):
+				add("Lock")
+			case strings.HasSuffix(s, ".lock.RLock"):
+				add("RLock")
+			case strings.HasSuffix(s, ".lock.Unlock"), strings.HasSuffix(s, ".lock.RUnlock"):
+				add("early " + s[strings.LastIndex(s, ".")+1:])
+			case strings.HasSuffix(s, ".groups.Has") && len(x.Args) == 1:
+				add("Has " + src(x.Args[0]))
+			case strings.HasSuffix(s, ".groups.Get") && len(x.Args) == 1:
+				add("Get " + src(x.Args[0]))
+			case s == "consensusHelper.CheckGroup":
+				add("CheckGroup")
+			case strings.HasSuffix(s, ".save"), strings.HasSuffix(s, ".remove"), strings.HasSuffix(s, ".getGroupByHeight"),
+				strings.HasSuffix(s, ".getGroupById"), strings.HasSuffix(s, ".height"):
+				add("call " + s)
+			}
+		case *ast.SelectorExpr:
+			if x.Sel.Name == "lastGroup" || x.Sel.Name == "count" {
+				add("touch " + src(x))
+			}
+		}
+		return true
+	})
+	return out
+}
+
 // guards lists the conditions of the if-statements of AddGroup whose body returns, up to the call of save.
 func guards(fd *ast.FuncDecl) []string {
 	var out []string
@@ -224,6 +270,10 @@ func main() {
 	sort.Strings(files)
 	var saveEff, removeEff, addGuards, writers, saveCallers, removeCallers []string
 	var saveMem, removeMem []string
+	var addLock, ancestorLock, saveLock, removeLock []string
+	consts := map[string]string{}
+	wantConst := map[string]bool{"groupChainPrefix": true, "groupForkDBPrefix": true, "lastGroupKey": true,
+		"groupCountKey": true, "latestGroupHeightKey": true, "groupCommonAncestorHeightKey": true}
 	found := map[string]bool{}
 	for _, f := range files {
 		base := filepath.Base(f)
@@ -236,6 +286,18 @@ func main() {
 			os.Exit(1)
 		}
 		for _, d := range af.Decls {
+			if gd, ok := d.(*ast.GenDecl); ok && gd.Tok == token.CONST {
+				for _, sp := range gd.Specs {
+					vs := sp.(*ast.ValueSpec)
+					for i, nm := range vs.Names {
+						if wantConst[nm.Name] && i < len(vs.Values) {
+							if bl, ok := vs.Values[i].(*ast.BasicLit); ok && bl.Kind == token.STRING {
+								consts[nm.Name] = strings.Trim(bl.Value, "\"`")
+							}
+						}
+					}
+				}
+			}
 			fd, ok := d.(*ast.FuncDecl)
 			if !ok || fd.Body == nil {
 				continue
@@ -251,7 +313,26 @@ func main() {
 				removeEff, removeMem = split(canon(fd, effects(fd)))
 				found["remove"] = true
 			}
+			if isGC && name == "removeFromCommonAncestor" {
+				ancestorLock = canon(fd, lockEvents(fd))
+				found["removeFromCommonAncestor"] = true
+			}
+			if isGC && name == "save" {
+				for _, e := range lockEvents(fd) {
+					if strings.Contains(e, "ock") {
+						saveLock = append(saveLock, e)
+					}
+				}
+			}
+			if isGC && name == "remove" {
+				for _, e := range lockEvents(fd) {
+					if strings.Contains(e, "ock") {
+						removeLock = append(removeLock, e)
+					}
+				}
+			}
 			if isGC && name == "AddGroup" {
+				addLock = canon(fd, lockEvents(fd))
 				addGuards = canon(fd, guards(fd))
 				found["AddGroup"] = true
 			}
@@ -292,7 +373,7 @@ func main() {
 			})
 		}
 	}
-	for _, k := range []string{"save", "remove", "AddGroup"} {
+	for _, k := range []string{"save", "remove", "AddGroup", "removeFromCommonAncestor"} {
 		if !found[k] {
 			fmt.Fprintln(os.Stderr, "c19facts: groupChain."+k+" not found")
 			os.Exit(1)
@@ -314,8 +395,24 @@ func main() {
 	b.WriteString("\n/-- Every statement in package core that writes the group store, `count` or `lastGroup` (sorted). -/\n")
 	sort.Strings(writers)
 	b.WriteString(leanList("stateWriters", writers))
+	b.WriteString("\n/-- Where `AddGroup` takes the chain lock relative to its reads of protected state and to `save`. -/\n")
+	b.WriteString(leanList("addLockOrder", addLock))
+	b.WriteString("\n/-- The same for `removeFromCommonAncestor`, the only caller of `remove`. -/\n")
+	b.WriteString(leanList("ancestorLockOrder", ancestorLock))
+	b.WriteString("\n/-- Lock operations inside `save` / `remove` themselves (they rely on their callers). -/\n")
+	b.WriteString(leanList("saveLockOps", saveLock))
+	b.WriteString(leanList("removeLockOps", removeLock))
 	b.WriteString("\n" + leanList("saveCallers", saveCallers))
 	b.WriteString("\n" + leanList("removeCallers", removeCallers))
+	b.WriteString("\n/-- Store prefixes and bookkeeping keys of the group chain and of the group fork database. -/\n")
+	for _, k := range []string{"groupChainPrefix", "groupForkDBPrefix", "lastGroupKey", "groupCountKey", "latestGroupHeightKey", "groupCommonAncestorHeightKey"} {
+		v, ok := consts[k]
+		if !ok {
+			fmt.Fprintln(os.Stderr, "c19facts: constant "+k+" not found")
+			os.Exit(1)
+		}
+		b.WriteString("def " + k + " : String := " + leanStr(v) + "\n")
+	}
 	b.WriteString("\nend Rangers.Generated.GroupChainFacts\n")
 	fmt.Print(b.String())
 }
